@@ -161,5 +161,11 @@ def get_ast(func):
     except (OSError, IOError):
         return None
     source = inspect.cleandoc('\n' + rawsource)
-    module = ast.parse(source)
-    return module.body[0]
+    try:
+        module = ast.parse(source)
+    except SyntaxError:
+        return None
+    node = module.body[0]
+    if not isinstance(node, (ast.FunctionDef, ast.AsyncFunctionDef)):
+        return None
+    return node
